@@ -1369,6 +1369,12 @@ class SpaceManager(SharedSpaceOperations):
 
         for subspace in self._get_subs(space):
             if name in subspace.cells:
+                sub = subspace.cells[name]
+                if sub.is_derived():
+                    # The new cells may precede the current base of
+                    # the derived cells in the MRO of subspace
+                    subspace.clear_subs_rootitems()
+                    sub.on_inherit(self, sub.defined_bases)
                 continue
             else:
                 subspace.clear_subs_rootitems()
